@@ -22,11 +22,36 @@ SCHEMES = ["http", "https", "ws", "wss", "ftp"]
 
 
 def sym_authority(ctx: Ctx, tag="", maxlen=6, upper=False):
-    host = z3.String("host" + tag)
+    """host = inner | "[" inner "]": the bracket structure is explicit (and registered for the
+    trim_*_matches models) so that the solver never has to rediscover it from the text"""
+    inner = z3.String("hostname" + tag)
+    bracketed = z3.Bool("host_is_ipv6_literal" + tag)
     has_port = z3.Bool("has_port" + tag)
     port = z3.BitVec("port" + tag, 16)
-    ctx.assume(z3.InRe(host, host_re(maxlen, upper)))
-    return AuthorityV(host, has_port, port)
+    al = ALNUM_UP if upper else ALNUM
+    name = z3.Concat(al, z3.Loop(z3.Union(al, DOT, DASH), 0, maxlen - 1))
+    v6 = z3.Loop(z3.Union(z3.Range("0", "9"), z3.Range("a", "f"), COLON), 2, maxlen)
+    ctx.assume(z3.If(bracketed, z3.InRe(inner, v6), z3.InRe(inner, name)))
+    with_tail = z3.Concat(inner, z3.StringVal("]"))
+    host = z3.If(bracketed, z3.Concat(z3.StringVal("["), with_tail), inner)
+    reg = getattr(ctx, "trim_registry", None)
+    if reg is None:
+        reg = ctx.trim_registry = {}
+    t1 = z3.If(bracketed, with_tail, inner)
+    reg[(host.get_id(), "start", "[")] = t1
+    reg[(t1.get_id(), "end", "]")] = inner
+    reg[(host.get_id(), "end", "]")] = z3.If(bracketed, z3.Concat(z3.StringVal("["), inner), inner)
+    ctx.keep = getattr(ctx, "keep", []) + [host, t1]
+    # abstract "rustls accepts this host as a server name"; the definition is a lazy constraint
+    from models import valid_server_name_def
+    snv = z3.Bool("host_is_valid_server_name" + tag)
+    if not hasattr(ctx, "sn_registry"):
+        ctx.sn_registry = {}
+        ctx.lazy_defs = []
+    ctx.sn_registry[inner.get_id()] = snv
+    ctx.sn_registry[host.get_id()] = z3.And(z3.Not(bracketed), snv)
+    ctx.lazy_defs.append(snv == valid_server_name_def(inner))
+    return AuthorityV(host, has_port, port, inner=inner, bracketed=bracketed)
 
 
 def sym_uri(ctx: Ctx, tag="", maxlen=6, path_len=4, shape_pq=True):
